@@ -174,15 +174,18 @@ def run(ctx):
     traces, samples, classes = [], [], set()
     tid = 0
     # ---------------- M + edge export
-    for inst in instances(ctx):
+    insts = instances(ctx)
+    # one single-worker run per instance: model checking (all invariants) + export of every transition with its witness
+    runs = tlc.run_parallel([dict(module="DynArray", cfg_text=cfg(*inst, export=True), workers=1, coverage=True,
+                                  timeout=1500) for inst in insts], max_procs=8)
+    for inst, r in zip(insts, runs):
         bucket, drop, maxlen, depth, multi, writes = inst
-        r = tlc.run("DynArray", cfg_text=cfg(*inst, export=False), workers=1, coverage=True, timeout=900)
         ctx.add_tlc(r, "DynArray bucket=%d drop=%d maxlen=%d depth=%d multi=%d writes=%s" % inst)
         if r.violation:
             # the model is fixed text: a violation here means spec and intended design disagree -> machinery
             raise Machinery("DynArray.tla violates %s for %r\n%s" % (r.violation["name"], inst, r.violation["trace"][:3000]))
-        r2 = tlc.run("DynArray", cfg_text=cfg(*inst, export=True), workers=1, timeout=900)
-        edges = tlc.tagged(r2, "EDGE")
+        edges = tlc.tagged(r, "EDGE")
+        ctx.log("M %r: %d distinct, %d edges, %.1fs" % (inst, r.distinct, len(edges), r.wall))
         if len(edges) != r.generated - 1:
             ctx.notes.append("edge export: %d edges vs %d generated" % (len(edges), r.generated - 1))
         for e in edges:
